@@ -266,6 +266,48 @@ def run(ctx):
             if "close=%s acc=%s" % (mc, macc) != got:
                 ctx.broke("correspondence:writer-history", ".%s history %s: impl %s, model close=%s acc=%s" % (ext, rp["ops"], got, mc, macc))
 
+    # ---- (2b) refusals that are not about the file layout: a refused write must still leave exactly the frames accepted before
+    for k in range(ctx.n(6, 30)):
+        n_ok = rng.randrange(1, 4)
+        path = os.path.join(ctx.scratch, "ovf.mdcrd")
+        clean(path)
+        f = md.open(path, "w")
+        do_write("mdcrd", f, src, list(range(n_ok)), 12, True, True)
+        bad = src.t.xyz[n_ok:n_ok + 3].copy() * 10
+        bad[rng.randrange(0, 3), rng.randrange(12), rng.randrange(3)] = rng.choice([2.0e5, -1.5e4])       # does not fit '%8.3f'
+        refused = False
+        try:
+            f.write(bad, cell_lengths=src.t.unitcell_lengths[n_ok:n_ok + 3] * 10)
+        except ValueError:
+            refused = True
+        f.close()
+        t_ = load(md, "mdcrd", path, top)
+        ctx.case(None, ("overflow-refusal", k)); ctx.count("overflow refusals: mdcrd")
+        if not refused or tf.frame_ids(t_.xyz, 1.0) != list(range(n_ok)):
+            viol("mdcrd|refused-write-leaves-frames", ".mdcrd: %d frames written, then a 3-frame call holding a value beyond the eight-column field was %s: the file loads with frames %s" % (
+                n_ok, "refused" if refused else "accepted", tf.frame_ids(t_.xyz, 1.0)), dict(ext="mdcrd", accepted=n_ok))
+    from mdtraj.formats import PDBTrajectoryFile
+    for k in range(ctx.n(3, 12)):
+        n_ok = rng.randrange(1, 4)
+        path = os.path.join(ctx.scratch, "rag.pdb")
+        clean(path)
+        fh = PDBTrajectoryFile(path, "w")
+        for i in range(n_ok):
+            fh.write(src.t.xyz[i] * 10, src.t.topology, modelIndex=i)
+        refused = False
+        try:
+            fh.write(src.t.xyz[n_ok][:11] * 10, src.t.topology.subset(range(11)), modelIndex=n_ok)
+        except ValueError:
+            refused = True
+        fh.close()
+        ctx.case(None, ("pdb-ragged", k)); ctx.count("ragged attempts: pdb")
+        try:
+            ids_ = tf.frame_ids(md.load(path).xyz, 1.0)
+        except Exception as e:  # noqa: BLE001
+            ids_ = "unreadable (%s)" % type(e).__name__
+        if not refused or ids_ != list(range(n_ok)):
+            viol("pdb|ragged-atom-count", ".pdb: %d models of 12 atoms written, then a model of 11 atoms was %s: the file loads as %s" % (n_ok, "refused" if refused else "accepted", ids_), dict(ext="pdb", accepted=n_ok))
+
     # ---- (3) kill experiments
     for ext in sorted(HAS_FLUSH | {"dcd"}):                       # the four formats the property names for live simulation output
         for mode in ("exit", "kill"):
